@@ -21,6 +21,7 @@ var c19Specs = []famSpec{
 	{Family: "rand-wide", FreshQ: 4000, FreshT: 200000},
 	{Family: "rect-soup", Pool: 40000, PoolQ: 2000},
 	{Family: "rect-cavity", Pool: 40000, PoolQ: 2000},
+	{Family: "touching", FreshQ: 2000, FreshT: 40000},
 	{Family: "nested-small", Pool: 30000, PoolQ: 1500},
 	{Family: "nested", FreshQ: 1500, FreshT: 50000},
 	{Family: "rectilinear", FreshQ: 1500, FreshT: 50000},
